@@ -29,6 +29,7 @@ structure Reg where
   seq : Bool
   filt : Option (Nat × Nat)     -- `some (m, r)`: accept iff `v % m = r`
   body : Nat                    -- index into `Config.bodies`
+  filtCancels : Bool := false   -- the filter (user code) cancels the publish context when evaluated
 deriving DecidableEq, Repr, Inhabited
 
 def Reg.ctxAware (r : Reg) : Bool := decide (ctxBase ≤ r.hid)
@@ -46,7 +47,7 @@ inductive CtxSel
 deriving DecidableEq, Repr
 
 inductive Action
-  | subscribe (ty hid : Nat) (once async seq : Bool) (filt : Option (Nat × Nat)) (body : Nat)
+  | subscribe (ty hid : Nat) (once async seq : Bool) (filt : Option (Nat × Nat)) (body : Nat) (fcancel : Bool)
   | unsubscribe (ty hid : Nat)
   | clear (ty : Nat)
   | clearAll
@@ -257,6 +258,10 @@ def callHandler (r : Reg) (ty v root obsParent d : Nat) (async : Bool) (s : St R
     | none => s
   { s with c := emitIf cfg.obs s.c (.obs d .hc hid 0 ty pv.isSome) }
 
+/-- cancel the publish context `root` (a background context, root 0, cannot be cancelled) -/
+def cancelRoot (root : Nat) (s : St R) : St R :=
+  if root = 0 then s else { s with c := { s.c with cancelled := root :: s.c.cancelled } }
+
 /-- one iteration of the dispatch loop of PublishContext -/
 def deliver (ty v root obs d : Nat) (acc : St R × List Reg) (r : Reg) : St R × List Reg :=
   let (s, claimed) := acc
@@ -264,6 +269,8 @@ def deliver (ty v root obs d : Nat) (acc : St R × List Reg) (r : Reg) : St R ×
   let s := match r.filt with
     | some _ => { s with c := s.c.emit (.filt d r.rid v (r.accepts v)) }
     | none => s
+  -- the filter is user code: it may cancel the context handed to PublishContext
+  let s := if r.filt.isSome && r.filtCancels then cancelRoot root s else s
   if !r.accepts v then (s, claimed)
   -- a cancelled publish skips the handler without consuming it
   else if !s.c.live root then (s, claimed)
@@ -309,8 +316,8 @@ def runPending (p : Pending) (s : St R) : St R :=
   else callHandler cfg rec p.reg p.ty p.v p.root p.obs p.depth true s
 
 def step (fr : Frame) (s : St R) : Action → St R
-  | .subscribe ty hid once async seq filt body =>
-    let r : Reg := ⟨s.c.nextRid, ty, hid, once, async, seq, filt, body⟩
+  | .subscribe ty hid once async seq filt body fcancel =>
+    let r : Reg := ⟨s.c.nextRid, ty, hid, once, async, seq, filt, body, fcancel⟩
     { reg := I.set s.reg ty (I.get s.reg ty ++ [r]), c := { s.c with nextRid := s.c.nextRid + 1 } }
   | .unsubscribe ty hid =>
     let hs := I.get s.reg ty
